@@ -55,8 +55,20 @@ func auxKeep(scenario string) bool {
 	return false
 }
 
-// Families explored by the C20 check.
+// Families explored by the C20 check. FullFamily holds the big thorough-only products of the
+// request matrix; it is explored by a second worker built with the quick hooks (FullJob).
 var Families = []string{"c20A", "c17"}
+
+const FullFamily = "c20Afull"
+
+// FullJob is the build of the second thorough worker: same sources, never deep hooks.
+func FullJob() sched.Job {
+	j := Job()
+	j.Check = "c20full"
+	j.Deep = false
+	j.NoAux = true
+	return j
+}
 
 // MatrixMenus states the request matrix of family A (checks/c20/scen/matrix.go) for the evidence.
 var MatrixMenus = map[string]string{
@@ -129,6 +141,23 @@ func Run(c *core.Ctx) {
 	}
 	b.Feed(c, o, ms)
 	b.NoteInstrumentation(c, "")
+	if c.Thorough() {
+		// the big products of the request matrix (full prefix x pairs product, 3-thread multisets):
+		// a second worker with the quick hooks
+		fb, err := sched.Build(FullJob())
+		if err != nil {
+			c.HarnessError("C20: %v", err)
+			return
+		}
+		fo := sched.Options{Families: []string{FullFamily}, Prefix: "full:", RowGroup: rowGroup}
+		fms, err := fb.Explore(c, fo)
+		if err != nil {
+			c.HarnessError("C20: %v", err)
+			return
+		}
+		fb.Feed(c, fo, fms)
+		fb.NoteInstrumentation(c, "instrumentation_full_matrix")
+	}
 	var sigs []string
 	for _, m := range ms {
 		for _, f := range m.Findings {
@@ -144,6 +173,12 @@ func Run(c *core.Ctx) {
 func Replay(c *core.Ctx, path string) {
 	j := Job()
 	j.NoAux = true
+	var rc struct {
+		Check string `json:"check"`
+	}
+	if err := core.ReplayCase(path, &rc); err == nil && rc.Check == "c20full" {
+		j = FullJob()
+	}
 	b, err := sched.Build(j)
 	if err != nil {
 		c.HarnessError("C20: %v", err)
